@@ -356,8 +356,8 @@ def analyze(kit):
                 calls.append(("mmst_step_io", ec + enc_state(s) + ints(a) + ints(perm)))
                 metas.append(("step", lay, enc_dyn(s2) + enc_ts(ts2) + ints(ts2.observation.node_types),
                               dict(where, action=ints(a), perm=ints(perm), illegal=illegal, live=live, state=describe(s))))
-                calls.append(("mmst_check_io", ec + enc_state(s2) + ints(s.finished_agents)))
-                metas.append(("check", None, None, dict(where, t=t + 1, live=live, state=describe(s2), prev_finished=ints(s.finished_agents))))
+                calls.append(("mmst_check_io", ec + enc_state(s2) + ints(s2.finished_agents)))     # mask judged with the state's OWN flags
+                metas.append(("check", None, None, dict(where, t=t + 1, live=live, state=describe(s2))))
                 if live:
                     # C12: copied observation fields
                     o = ts2.observation
@@ -366,14 +366,14 @@ def analyze(kit):
                     if not (np.array_equal(o.adj_matrix, s2.adj_matrix) and np.array_equal(o.positions, s2.positions)
                             and int(o.step_count) == int(s2.step_count) and np.array_equal(o.action_mask, s2.action_mask)):
                         kit.fail(["C12"], "copied observation field differs from the state", dict(cfg=cfg["label"], op="obs-copy"), dict(where, seed=kit.seed))
-                    # C04 finding: the mask of an agent that has just finished is built with the OLD finished flags
+                    # C04 (hard): a finished agent has no legal move -> its mask row must be empty in the SAME state
                     f2, m2 = np.asarray(s2.finished_agents), np.asarray(s2.action_mask)
-                    if int(ts2.step_type) != 2:
-                        kit.res["C04"].evaluations += 1
-                        for i in range(A):
-                            if f2[i] and m2[i].any():
-                                kit.res["C04"].count("stale-mask-of-just-finished-agent")
-                                kit.fail(["C04"], "finished agent keeps a non-empty action mask for one step (mask built with the previous finished flags); its masked-in moves are ignored",
+                    kit.res["C04"].evaluations += 1
+                    for i in range(A):
+                        if f2[i]:
+                            kit.res["C04"].count("finished-agent-row-checked")
+                            if m2[i].any():
+                                kit.fail(["C04"], "finished agent has a non-empty action mask row (mask not built with the state's own finished flags)",
                                          dict(cfg=cfg["label"], op="mask-exact", cause="stale-finished-flags"),
                                          dict(where, agent=i, state=describe(s), action=ints(a), perm=ints(perm), next_mask_row=m2[i].astype(int).tolist(), seed=kit.seed))
                 # ---- every single-agent action from this state (others stand still = illegal self move)
@@ -414,9 +414,11 @@ def analyze(kit):
                             kit.res["C05"].evaluations += 1
                             kit.res["C05"].distinct.add((cfg["label"], p, b, t, "all-stay"))
                             exp = pen * int((~fin).sum())
+                            if any(int(s.connected_nodes_index[i, N - 1]) != -1 and not fin[i] for i in range(A)):
+                                kit.res["C05"].count("all-stay-with-an-agent-that-visited-node-N-1")
                             if abs(float(ts3q.reward) - exp) > 1e-6:
                                 visited_last = [int(i) for i in range(A) if not fin[i] and int(s.connected_nodes_index[i, N - 1]) != -1]
-                                kit.fail(["C05"], "illegal move not charged the documented invalid-action penalty (agent that has visited node N-1: connected_nodes_index[agent, -1] wraps)",
+                                kit.fail(["C05"], "illegal move not charged the documented time-step + invalid-action penalty",
                                          dict(cfg=cfg["label"], op="invalid-penalty", cause="last-node-wrap"),
                                          dict(where, action=ints(aq), reward=float(ts3q.reward), documented=exp, agents_having_visited_last_node=visited_last,
                                               state=describe(s), seed=kit.seed))
@@ -473,8 +475,6 @@ def analyze(kit):
                          dict(cfg=m["cfg"], op="corr-" + kind, fields=",".join(bad)), dict(m, seed=kit.seed))
         elif kind == "check":
             for nm, v in zip(names, got):
-                if nm == "mask_ok" and not m["live"]:
-                    continue
                 for pid in pid_of[nm]:
                     kit.res[pid].evaluations += 1
                     kit.res[pid].distinct.add((m["cfg"], m["p"], m["b"], m["t"], nm))
